@@ -36,7 +36,8 @@ def gen_case(rng, n_max=5, n_min=2, n=None):
     else:
         order = []
     return {"cands": cands, "ballots": [list(b) if b is not None else None for b in prof], "winner": winner,
-            "asn": rng.choice(("cp", "bp")), "order": order, "informal": rng.choice((0, 0, 3)), "warm": rng.random() < 0.25}
+            "asn": rng.choice(("cp", "bp")), "order": order, "informal": rng.choice((0, 0, 3)), "warm": rng.random() < 0.25,
+            "dict_order": rng.choice(("preference", "candidate", "reversed")), "cname": rng.choice(("con1", "con1", "con1", 1))}
 
 
 def run_raire(case, rec, monitor):
@@ -46,11 +47,24 @@ def run_raire(case, rec, monitor):
     from shangrla.raire.sample_estimator import bp_estimate, cp_estimate
     cands, winner = case["cands"], case["winner"]
     prof = [tuple(b) if b is not None else None for b in case["ballots"]]
-    cname = "con1"
+    # the contest identifier is an opaque key: a string in RAIRE files, an integer in the library's text format
+    cname = case.get("cname", "con1")
+    if not isinstance(cname, str):
+        rec.count("contest_identifier_is_not_a_string")
     cvrs = {}
     for i, b in enumerate(prof):
         bid = f"b{i}"
-        cvrs[bid] = {"other": {"Z": 0}} if b is None else {cname: {c: k for k, c in enumerate(b)}}
+        if b is None:
+            cvrs[bid] = {"other": {"Z": 0}}
+            continue
+        # the ballot mapping may be stored in any order (the documentation's own example lists candidates in candidate
+        # order): preference order, candidate order, reversed - the ranks are what counts
+        ranks = {c: k for k, c in enumerate(b)}
+        mode = case.get("dict_order", "preference")
+        keys = list(b) if mode == "preference" else [c for c in cands if c in ranks] if mode == "candidate" else list(reversed(b))
+        cvrs[bid] = {cname: {c: ranks[c] for c in keys}}
+    if case.get("dict_order", "preference") != "preference":
+        rec.count("ballot_mappings_not_stored_in_preference_order")
     tot = sum(1 for b in prof if b is not None) + case.get("informal", 0)
     asn_func = cp_estimate if case["asn"] == "cp" else bp_estimate
     contest = Contest(cname, list(cands), winner, tot, order=list(case.get("order") or []))
